@@ -298,6 +298,10 @@ def _is_pow2(n):
     return n > 0 and n & (n - 1) == 0
 
 
+def _is_packable(mcpu):
+    return mcpu >= 250 and mcpu % 250 == 0 and _is_pow2(mcpu // 250)
+
+
 def _packings(rng, cores, n_random):
     """lists of packable core requests (mcpu) that fit on a worker with `cores` cores"""
     cap = cores * 1000
@@ -322,17 +326,82 @@ def _packings(rng, cores, n_random):
     return out
 
 
-def _configs(ctx, n_random_packings):
+MIB = 1024 * 1024
+
+# core counts that are not powers of two (job-private machine shapes of either cloud, present or future) + two large powers of
+# two: billed through the real classes with `cores` set by hand, in case the machine tables lose their odd shapes
+EXTRA_CORES = [3, 6, 12, 20, 24, 40, 48, 72, 96, 104, 112, 192, 208, 416, 128, 512]
+
+
+def _general_packings(rng, cores, memory, n_random, heavy=True):
+    """sets of jobs (cpu, memory, external disk) of ANY size — not only packable ones — that fit on a worker with `cores` cores
+    and `memory` bytes: the whole worker, halves, thirds, one core / 250 mcpu next to the rest, all single cores, all quarter
+    cores, random splits.  The memory of a job is its share of the machine's, rounded down to a whole MiB."""
+    cap = cores * 1000
+
+    def job(cpu, ext=0):
+        return [cpu, memory if cpu == cap else (memory * cpu // cap) // MIB * MIB, ext]
+
+    third = cap // 3
+    splits = [[cap], [cap // 2, cap - cap // 2], [third, third, cap - 2 * third], [cap - 250, 250]]
+    if cores > 1:
+        splits.append([cap - 1000, 1000])
+        splits.append([(cores - 1) * 1000])                      # cores-1: leaves a core unused
+    if heavy:                                                    # once per (cloud, core count): the formulas read nothing else of the machine
+        splits.append([1000] * cores)
+        if cap // 250 <= 400:
+            splits.append([250] * (cap // 250))
+    splits.append([cap // 3])                                    # a lone 1/3-ish job
+    for _ in range(n_random):
+        left, p = cap, []
+        while left > 0 and len(p) < 12:
+            cpu = min(left, rng.choice([250, 333, 500, 1000, 1500, rng.randint(1, cap), rng.randint(1, max(1, cap // 4))]))
+            p.append(cpu)
+            left -= cpu
+            if rng.random() < 0.15:
+                break
+        splits.append(p)
+    return [[job(cpu, rng.choice([0, 0, 0, 0, 10, 375])) if len(p) > 1 else job(cpu) for cpu in p] for p in splits]
+
+
+def _corpus_configs(ctx):
+    import glob
+    import os
+    out = []
+    t = _get_tables(ctx)
+    shape = {('gcp', x[0]): (x[3], x[4]) for x in t['gcp']['machines']}
+    shape.update({('azure', x[0]): (x[2], x[3]) for x in t['azure']['machines']})
+    for f in sorted(glob.glob(os.path.join(ctx.verif, 'corpus', ID, '*.json'))):
+        doc = json.load(open(f))
+        for e in doc.get('configs', []):
+            c = dict(e['config'])
+            if (c['cloud'], c['machine_type']) not in shape:
+                continue          # a machine type the current tables do not have
+            cores, memory = shape[(c['cloud'], c['machine_type'])]
+            cap = c.get('cores_override', cores) * 1000
+            c.setdefault('missing_products', [])
+            # a job's memory given as null = its share of the machine's memory (all of it for the all-cores job), in whole MiB
+            c['jobs'] = [[j[0], (memory if j[0] == cap else memory * j[0] // cap // MIB * MIB) if j[1] is None else j[1], j[2]]
+                         for j in e['jobs']]
+            c['packings'] = [list(range(len(c['jobs'])))]
+            out.append(c)
+    return out
+
+
+def _configs(ctx, n_random_packings, general=False):
+    """general=True (the oracle): job-private configurations additionally carry jobs of any size (_general_packings), every
+    EXTRA_CORES count is billed through a job-private configuration of each cloud, and the corpus comes first"""
     t = _get_tables(ctx)
     rng = ctx.rng
     full = ctx.thorough
-    cfgs = []
+    cfgs = _corpus_configs(ctx) if general else []
+    heavy_seen = set()
     job_mem = {('gcp', wt, c): b for wt, c, b in t['gcp']['job_memory']}
     job_mem.update({('azure', wt, c): b for wt, c, b in t['azure']['job_memory']})
     pool_mt = {('gcp', mt): wt for wt, c, mt, ok, mib in t['gcp']['pool_machine'] if ok}
     pool_mt.update({('azure', mt): wt for wt, c, ssd, mt, ok, mib in t['azure']['pool_machine'] if ok})
 
-    def add(cloud, mt, cores, memory, preemptible, ssd, data, boot, job_private, location, missing=()):
+    def add(cloud, mt, cores, memory, preemptible, ssd, data, boot, job_private, location, missing=(), cores_override=None):
         jobs = []
         packs = []
         if not job_private and _is_pow2(cores) and cores <= 256 and (cloud, mt) in pool_mt:
@@ -346,9 +415,18 @@ def _configs(ctx, n_random_packings):
             jobs.append([cores * 1000, memory, 0])
             if job_private:
                 packs.append([0])
-        cfgs.append(dict(cloud=cloud, machine_type=mt, preemptible=preemptible, local_ssd_data_disk=ssd, data_disk_size_gb=data,
-                         boot_disk_size_gb=boot, job_private=job_private, location=location, missing_products=list(missing),
-                         jobs=jobs, packings=packs))
+                if general:
+                    heavy = (cloud, cores) not in heavy_seen
+                    heavy_seen.add((cloud, cores))
+                    for p in _general_packings(rng, cores, memory, n_random_packings if heavy else max(1, n_random_packings // 4), heavy)[1:]:
+                        packs.append(list(range(len(jobs), len(jobs) + len(p))))
+                        jobs.extend(p)
+        cfg = dict(cloud=cloud, machine_type=mt, preemptible=preemptible, local_ssd_data_disk=ssd, data_disk_size_gb=data,
+                   boot_disk_size_gb=boot, job_private=job_private, location=location, missing_products=list(missing),
+                   jobs=jobs, packings=packs)
+        if cores_override is not None:
+            cfg['cores_override'] = cores_override
+        cfgs.append(cfg)
 
     for n, fam, wt, c, m, gp in t['gcp']['machines']:
         combos = [(True, False, 100, 10, False), (False, True, 375, 10, True)]
@@ -364,6 +442,22 @@ def _configs(ctx, n_random_packings):
             combos += [(True, True, 0, 128, False), (False, False, 4000, 200, False)]
         for pre, ssd, data, boot, jp in combos:
             add('azure', n, c, m, pre, ssd, data, boot, jp, rng.choice(['eastus', 'westeurope']))
+    if general:
+        # every core count of the tables is covered above through its own machine types; the explicit list rides on one plain and
+        # one accelerator machine of gcp and one azure machine (the quantity formulas read only `cores` and the resources)
+        in_tables = {c for _, _, _, c, _, _ in t['gcp']['machines']} | {c for _, _, c, _ in t['azure']['machines']}
+        bases = []
+        gm = t['gcp']['machines']
+        plain = next((x for x in gm if x[5] == 0), None)
+        gpu = max((x for x in gm if x[5] > 0), key=lambda x: x[5], default=None)
+        bases += [('gcp', x[0], x[4]) for x in (plain, gpu) if x is not None]
+        if t['azure']['machines']:
+            x = t['azure']['machines'][0]
+            bases.append(('azure', x[0], x[3]))
+        for k in EXTRA_CORES:
+            for cloud, mt, m in (bases if k not in in_tables or full else bases[:1]):
+                add(cloud, mt, k, m, False, True, 375 if cloud == 'gcp' else 0, 10, True,
+                    'us-central1-a' if cloud == 'gcp' else 'eastus', cores_override=k)
     return cfgs
 
 
@@ -377,6 +471,9 @@ def _run_bill(ctx, cfgs):
     res = []
     for i in range(0, len(send), 200):
         res += ctx.run_impl('c13_billing.py', {'mode': 'bill', 'configs': send[i:i + 200]}, timeout=600)['results']
+    for r in res:
+        if r.get('billed_reloaded') == 'same':
+            r['billed_reloaded'] = r['billed']
     return res
 
 
@@ -484,6 +581,42 @@ def _cfg_key(c):
     return {a: b for a, b in c.items() if a not in ('jobs', 'packings')}
 
 
+# how each resource class is billed (mirror of GenLemmas.kind_of_class, which the lemma classes_covered ties to the classes the
+# extractor finds): 'disk' GiB x 1024ths, 'frac' 1024ths, 'accel' count x 1024ths, 'cpu' millicores, 'mem' MiB, 'ext' the job's own disk
+KIND_OF_CLASS = {
+    'GCPStaticSizedDiskResource': 'disk', 'GCPLocalSSDStaticSizedDiskResource': 'disk', 'AzureStaticSizedDiskResource': 'disk',
+    'GCPDynamicSizedDiskResource': 'ext', 'AzureDynamicSizedDiskResource': 'ext',
+    'GCPComputeResource': 'cpu', 'GCPServiceFeeResource': 'cpu', 'AzureServiceFeeResource': 'cpu', 'GCPSupportLogsSpecsAndFirewallFees': 'cpu',
+    'GCPMemoryResource': 'mem', 'GCPAcceleratorResource': 'accel', 'GCPIPFeeResource': 'frac', 'AzureIPFeeResource': 'frac',
+    'AzureVMResource': 'frac'}
+
+
+def _instance_resources(r):
+    """the ACTUAL resources of the instance, from the resource objects themselves (never through quantified_resources), in the
+    order quantified_resources lists them for a job without external disk: [(name, kind, unit, full amount)], where a job holding
+    wf 1024ths is billed unit x wf of the 'disk'/'frac'/'accel' kinds and the whole instance is `full` (the right-hand side of
+    C13_whole_is_whole).  None when a resource class is unknown (the translator and classes_covered fail closed on that)."""
+    out = []
+    for cls, name, attrs in r.get('res_info') or []:
+        kind = KIND_OF_CLASS.get(cls)
+        if kind is None:
+            return None
+        if kind == 'ext':
+            continue
+        if kind == 'disk' or kind == 'accel':
+            unit = attrs.get('storage_in_gib' if kind == 'disk' else 'number')
+            if not isinstance(unit, int) or unit < 0:
+                return None
+            out.append((name, kind, unit, unit * 1024))
+        elif kind == 'frac':
+            out.append((name, kind, 1, 1024))
+        elif kind == 'cpu':
+            out.append((name, kind, None, r['cores'] * 1000))
+        else:
+            out.append((name, kind, None, r['memory'] // MIB))
+    return out
+
+
 def _check_config(c, r):
     """the property's clauses on the real classes' output for one configuration; returns list of (key, what, case, expected, observed)"""
     out = []
@@ -498,6 +631,23 @@ def _check_config(c, r):
         return out       # quantified_resources asserts on this pool worker: nothing is billed at all
     if isinstance(whole, str):
         return [('whole-raises', f'quantified_resources of the whole worker raised {whole}', {'config': ck}, 'quantities', whole)]
+    cap = r['cores'] * 1000
+    whole_job = [cap, r['memory'], 0]
+    inst = _instance_resources(r)
+    if inst is not None and [nm for nm, _ in whole] != [nm for nm, _, _, _ in inst]:
+        out.append(('different-resources', 'the whole worker is billed other resources than the instance has', {'config': ck, 'job': whole_job},
+                    [nm for nm, _, _, _ in inst], [nm for nm, _ in whole]))
+        inst = None
+    if inst is not None:
+        # whole = whole, against the instance's ACTUAL resources in exact integers (C13_whole_is_whole): all of every disk, all the
+        # millicores, 1024/1024 of the vm / ip fee, every accelerator, all the MiB — for every machine shape, power of two or not
+        for (nm, wq), (_, kind, unit, full) in zip(whole, inst):
+            if wq != full:
+                under = wq < full
+                out.append(('whole-worker-underbilled' if under else 'whole-worker-overbilled',
+                            f'a job using the whole worker ({r["cores"]} cores) is billed {wq} of {nm} ({kind}); the instance has {full}',
+                            {'config': ck, 'job': whole_job, 'resource': nm}, full, wq))
+                break
     # serialisation
     if r['reload'] != 'ok':
         out.append(('reload-fails', f'from_dict(to_dict(cfg)) raised {r["reload"]}', {'config': ck, 'to_dict': r['to_dict']}, 'a configuration', r['reload']))
@@ -518,6 +668,22 @@ def _check_config(c, r):
             out.append(('different-resources', 'a job without external disk is billed other resources than the whole worker', {'config': ck, 'job': job},
                         [nm for nm, _ in whole], [nm for nm, _ in b0]))
             continue
+        if inst is not None and 0 <= job[0] <= cap:
+            # no under-billing (C13_job_share_floor): the 1024ths billed are the job's exact share 1024*cpu/(cores*1000) rounded DOWN —
+            # a whole 1024th or more below the share (or fewer millicores / MiB than the job has) is billed to nobody
+            for (nm, q), (_, kind, unit, full) in zip(b0, inst):
+                if kind in ('disk', 'frac', 'accel'):
+                    bad = (q + unit) * cap <= unit * 1024 * job[0] if unit > 0 else q < 0
+                    want = f'> {unit} * (1024 * {job[0]} / {cap} - 1), i.e. >= {unit * (1024 * job[0] // cap)}'
+                elif kind == 'cpu':
+                    bad, want = q < job[0], f'>= {job[0]}'
+                else:
+                    bad, want = q < job[1] // MIB, f'>= {job[1] // MIB}'
+                if bad:
+                    out.append(('job-underbilled', f'a job with {job[0]} of the {cap} mcpu of the worker is billed {q} of {nm} ({kind}): '
+                                                   'less than its share rounded down to a 1024th of the worker',
+                                {'config': ck, 'job': job, 'resource': nm}, want, q))
+                    break
         # external disk: exactly one extra entry when ext > 0, none otherwise, worth at least the request
         extra = list(be)
         for e in b0:
@@ -540,6 +706,23 @@ def _check_config(c, r):
                             {'config': ck, 'jobs': [c['jobs'][j] for j in p]}, f'<= {wq}', s))
                 break
         total_cpu = sum(c['jobs'][j][0] for j in p)
+        total_mem = sum(c['jobs'][j][1] for j in p)
+        if inst is not None and total_cpu <= cap and total_mem <= r['memory']:
+            # ... and never more than the instance actually HAS (the whole worker of C13_whole_is_whole), whatever
+            # quantified_resources makes of the all-cores job
+            for pos, (nm, kind, unit, full) in enumerate(inst):
+                s = sum(row[pos][1] for row in rows)
+                if s > full:
+                    out.append(('packed-exceeds-instance', f'jobs packed on one worker are billed {s} of {nm}, the instance has {full}',
+                                {'config': ck, 'jobs': [c['jobs'][j] for j in p], 'resource': nm}, f'<= {full}', s))
+                    break
+                # a pool worker packed EXACTLY with packable requests is billed in full (C13_pool_exact_packing)
+                if not c['job_private'] and total_cpu == cap and s < full and all(_is_packable(c['jobs'][j][0]) for j in p) \
+                        and (kind != 'mem' or total_mem == r['memory']):
+                    out.append(('full-pool-worker-underbilled', f'packable jobs filling all {r["cores"]} cores of a pool worker are billed {s} of {nm}, '
+                                                                f'the instance has {full}: the rest is billed to nobody',
+                                {'config': ck, 'jobs': [c['jobs'][j] for j in p], 'resource': nm}, full, s))
+                    break
         if len(p) == 1 and total_cpu == r['cores'] * 1000 and c['jobs'][p[0]][1] == r['memory'] and rows[0] != whole:
             out.append(('whole-not-whole', 'a job using the whole worker is not billed exactly the whole worker',
                         {'config': ck, 'job': c['jobs'][p[0]]}, whole, rows[0]))
@@ -550,21 +733,31 @@ def _check_config(c, r):
 
 
 def oracle(ctx, budget):
-    cfgs = _configs(ctx, ctx.scale(4, 16) * budget)
+    cfgs = _configs(ctx, ctx.scale(4, 16) * budget, general=True)
     res = _run_bill(ctx, cfgs)
     fails = []
     n = 0
     distinct = set()
+    cores_hist = {}
+    unclassified = 0
     for c, r in zip(cfgs, res):
         n += len(c['jobs']) * 2 + 3
         for p in c['packings']:
-            distinct.add((c['cloud'], c['machine_type'], c['local_ssd_data_disk'], c['job_private'], tuple(c['jobs'][j][0] for j in p)))
+            distinct.add((c['cloud'], c['machine_type'], c.get('cores_override'), c['local_ssd_data_disk'], c['job_private'],
+                          tuple(c['jobs'][j][0] for j in p)))
+        if r['create'] == 'ok':
+            k = ('pow2:' if _is_pow2(r['cores']) else 'other:') + str(r['cores'])
+            cores_hist[k] = cores_hist.get(k, 0) + 1
+            if _instance_resources(r) is None:
+                unclassified += 1
         for key, what, case, exp, obs in _check_config(c, r):
             fails.append(Failure(key, what, case, exp, obs))
     return fails, {'evaluations': n, 'distinct_nontrivial': len(distinct),
-                   'rule': 'oracle: per configuration of the real classes — packed <= whole position by position, the all-cores job = whole, '
-                           'external disk billed per job only, from_dict(to_dict) reloads and bills identically (through json.dumps/loads)',
-                   'histograms': {'oracle_configs': {'n': len(cfgs)}}}
+                   'rule': 'oracle: per configuration of the real classes (every machine type of both tables, job-private ones with jobs of any '
+                           'size, + explicit odd core counts) — the all-cores job = the instance\'s actual resources in exact integers, packed <= '
+                           'whole and <= the instance position by position, no job billed a whole 1024th below its share, full pool workers '
+                           'billed in full, external disk billed per job only, from_dict(to_dict) reloads and bills identically (json.dumps/loads)',
+                   'histograms': {'oracle_configs': {'n': len(cfgs), 'resource_class_unknown': unclassified}, 'oracle_worker_cores': cores_hist}}
 
 
 def replay(ctx, doc):
@@ -576,6 +769,7 @@ def replay(ctx, doc):
     cfg['jobs'] = [list(j) for j in jobs]
     cfg['packings'] = [list(range(len(jobs)))] if jobs else []
     r = _run_bill(ctx, [cfg])[0]
-    return {'config': _cfg_key(cfg), 'jobs': jobs, 'create': r['create'], 'reload': r.get('reload'), 'billed': r.get('billed'),
+    return {'config': _cfg_key(cfg), 'jobs': jobs, 'create': r['create'], 'cores': r.get('cores'), 'memory': r.get('memory'),
+            'instance_resources': r.get('res_info'), 'reload': r.get('reload'), 'billed': r.get('billed'),
             'billed_reloaded': r.get('billed_reloaded'), 'whole': r.get('whole'), 'whole_reloaded': r.get('whole_reloaded'),
             'violations': [dict(key=k, what=w, expected=e, observed=o) for k, w, _, e, o in _check_config(cfg, r)]}
